@@ -19,8 +19,11 @@ EXTENDS NpyStore, Json, IOUtils
 
 Traces == JsonDeserialize(IOEnv.TRACE_FILE)
 
-VARIABLES tid, l, inCall, sf, verdict, drift, done
-tvars == <<vars, tid, l, inCall, sf, verdict, drift, done>>
+VARIABLES tid, l, inCall, sf, view, verdict, drift, done
+tvars == <<vars, tid, l, inCall, sf, view, verdict, drift, done>>
+\* view: how many batches of the file the NpyStore makes available (-1 = all of them).  NpyStore(file, bs, n_batches=k)
+\* - call "reopen_n" - opens a PREFIX view: the file keeps its rows, the store reports the first k batches, setting
+\* batch k overwrites slot k in place, deleting the last visible batch cuts the file there.
 
 T == Traces[tid]
 
@@ -28,7 +31,7 @@ TInit == /\ tid \in 1..Len(Traces)
          /\ rows = T.init /\ hdr = Len(T.init) /\ data = T.init /\ wbuf = <<>> /\ hdrPrep = None
          /\ memValid = FALSE /\ isOpen = TRUE /\ prog = <<>> /\ pend = T.init
          /\ sinceFlush = {T.init} /\ ncalls = 0 /\ crashed = FALSE
-         /\ l = 1 /\ inCall = FALSE /\ sf = {T.init} /\ verdict = "ok" /\ drift = "" /\ done = FALSE
+         /\ l = 1 /\ inCall = FALSE /\ sf = {T.init} /\ view = -1 /\ verdict = "ok" /\ drift = "" /\ done = FALSE
 
 \* list model of one call
 RowsAfter(c, r) ==
@@ -44,35 +47,48 @@ ProgFor(c) ==
     [] c.op = "flush" -> ProgFlush(hdrPrep)
     [] c.op = "reopen" -> ProgCloseReopen(hdrPrep)
     [] c.op = "pickle" -> ProgPickle(hdrPrep)
-IsFlushing(c) == c.op \in {"flush", "reopen", "pickle"}
+IsFlushing(c) == c.op \in {"flush", "reopen", "pickle", "reopen_n"}
+\* the call on the underlying array that a store call amounts to under the current view
+Eff(c) == IF c.op = "append" /\ view # -1 /\ view < Len(rows) THEN [op |-> "overwrite", a |-> view + 1, b |-> c.a]
+          ELSE IF c.op = "reopen_n" THEN [op |-> "reopen", a |-> 0, b |-> 0]
+          ELSE [op |-> c.op, a |-> c.a, b |-> c.b]
+ViewAfter(c) == CASE c.op = "reopen_n" -> c.a
+                  [] c.op = "reopen" -> -1
+                  [] c.op = "append" -> IF view = -1 THEN -1 ELSE view + 1
+                  [] c.op = "truncate" -> IF view = -1 THEN -1 ELSE c.a
+                  [] OTHER -> view
+Visible(r, v) == IF v = -1 \/ v > Len(r) THEN r ELSE SubSeq(r, 1, v)
 
 Live == ~done /\ ~crashed /\ verdict = "ok"
 
 StartCall ==
   /\ Live /\ ~inCall /\ prog = <<>> /\ l <= Len(T.calls) /\ (T.kind = "crash" => l <= T.kill)
-  /\ Begin(ProgFor(T.calls[l]), RowsAfter(T.calls[l], rows))
-  /\ inCall' = TRUE /\ sf' = sf \cup {RowsAfter(T.calls[l], rows)}
-  /\ UNCHANGED <<tid, l, verdict, drift, done>>
+  /\ Begin(ProgFor(Eff(T.calls[l])), RowsAfter(Eff(T.calls[l]), rows))
+  /\ inCall' = TRUE /\ sf' = sf \cup {RowsAfter(Eff(T.calls[l]), rows)}
+  /\ UNCHANGED <<tid, l, view, verdict, drift, done>>
 
-TMicro == Live /\ inCall /\ Micro /\ UNCHANGED <<tid, l, inCall, sf, verdict, drift, done>>
-TOSWrite == Live /\ OSWrite /\ UNCHANGED <<tid, l, inCall, sf, verdict, drift, done>>
+TMicro == Live /\ inCall /\ Micro /\ UNCHANGED <<tid, l, inCall, sf, view, verdict, drift, done>>
+TOSWrite == Live /\ OSWrite /\ UNCHANGED <<tid, l, inCall, sf, view, verdict, drift, done>>
 
 \* the call returned: compare what the store reports with the list model
-JudgeApiP(c, expect) ==
+JudgeApiP(c, expect, v) ==
   IF c.obs.len # Len(expect) THEN "P:reports-length-of-list-model"
   ELSE IF c.obs.looked /\ c.obs.content # expect THEN "P:reports-batches-of-list-model"
   ELSE IF IsFlushing(c) /\ ~c.obs.fileok THEN "P:file-loads-after-flush"
-  ELSE IF IsFlushing(c) /\ c.obs.file # expect THEN "P:file-equals-content-after-flush"
+  ELSE IF IsFlushing(c) /\ Visible(c.obs.file, v) # expect THEN "P:file-equals-content-after-flush"
   ELSE "ok"
 EndCall ==
   /\ Live /\ inCall /\ prog = <<>>
   /\ LET c == T.calls[l]
-     IN /\ verdict' = IF T.kind = "api" THEN JudgeApiP(c, pend) ELSE "ok"
+         v == ViewAfter(c)
+     IN /\ verdict' = IF T.kind = "api" THEN JudgeApiP(c, Visible(pend, v), v) ELSE "ok"
         /\ drift' = IF drift # "" THEN drift
                     ELSE IF rows # pend THEN "M:logical-content-after-call"
                     ELSE IF IsFlushing(c) /\ OnDisk(hdr, data) # rows THEN "M:disk-after-flush"
+                    ELSE IF T.kind = "api" /\ IsFlushing(c) /\ c.obs.fileok /\ c.obs.file # pend THEN "M:whole-file-after-flush"
                     ELSE ""
         /\ sf' = IF IsFlushing(c) THEN {pend} ELSE sf
+        /\ view' = v
   /\ inCall' = FALSE /\ l' = l + 1
   /\ done' = (verdict' # "ok")
   /\ UNCHANGED <<vars, tid>>
@@ -93,12 +109,12 @@ CrashNow ==
               ELSE IF ~T.obs.loadable /\ Loadable(hdr, data) THEN "M:disk-state-allowed-by-model"
               ELSE ""
   /\ done' = TRUE
-  /\ UNCHANGED <<tid, l, inCall, sf>>
+  /\ UNCHANGED <<tid, l, inCall, sf, view>>
 
 \* (for a crash trace the branches that run past the killed call simply end without a verdict)
 Finish ==
   /\ Live /\ T.kind = "api" /\ ~inCall /\ l > Len(T.calls) /\ done' = TRUE
-  /\ UNCHANGED <<vars, tid, l, inCall, sf, verdict, drift>>
+  /\ UNCHANGED <<vars, tid, l, inCall, sf, view, verdict, drift>>
 
 TNext == StartCall \/ TMicro \/ TOSWrite \/ EndCall \/ CrashNow \/ Finish
 TSpec == TInit /\ [][TNext]_tvars
